@@ -811,6 +811,11 @@ func (s *mStore) UpsertAccounts(ctx context.Context, accounts ...ledger.AccountW
 		addrs = append(addrs, a.Address)
 	}
 	sort.Strings(addrs)
+	// the statement's data_batch must name an account once: with a duplicate, UPDATE ... FROM picks one of the two rows
+	// arbitrarily and the INSERT of a new account hits the unique index (the SQL half, C18, assumes distinct addresses)
+	for i := 1; i < len(addrs); i++ {
+		verifAssert("C18:a-batch-names-an-account-once", addrs[i] != addrs[i-1])
+	}
 	for _, a := range addrs {
 		if err := s.lock("acc:" + a); err != nil {
 			return s.fail(err)
